@@ -416,7 +416,8 @@ impl Printer {
         }
     }
     fn string(&mut self, s: &str) -> String {
-        let raw_ok = !s.contains('\r');
+        // a bare CR cannot be written in a raw string; CR LF can
+        let raw_ok = !s.replace("\r\n", "").contains('\r');
         if raw_ok && self.st.chance(1, 3) {
             let mut n = self.st.below(2) as usize;
             loop {
@@ -917,7 +918,7 @@ fn gen_string(t: &mut Tape, for_doc: bool) -> String {
     let mut s = String::new();
     let alphabet: &[&str] = &[
         "a", "B", "z", "0", "9", " ", " ", "_", "-", "/", "\\", "\"", "'", "#", "{", "}", "[", "]", "(", ")", ";", ",", "<",
-        ">", "*", "&", "!", "é", "变", "\t", "\n", "\u{7f}", "\0", "r#\"", "\"#", "//", "/*", "*/", "\u{a0}", "💥",
+        ">", "*", "&", "!", "é", "变", "\t", "\n", "\r\n", "\r", "\u{7f}", "\0", "r#\"", "\"#", "//", "/*", "*/", "\u{a0}", "💥",
     ];
     for _ in 0..n {
         let a = *t.pick(alphabet);
